@@ -446,3 +446,18 @@ package filesystem
 //@   at call asn1.UnmarshalKeyRing : assert only-verified-data-is-decoded: ret(Notary.Verify)[1] == nil && sameslice(arg[0], ret(Notary.Verify)[0].Payload.Data.FullBytes) && ret(Notary.Verify)[0].Payload.ContentType == asn1.TypeKeyRing && ret(Notary.Verify)[0].Payload.Version == asn1.KeyRingVersion2
 //@   ensures rejected-blob-gives-nothing: ret(Notary.Verify)[1] != nil ==> ring == nil && err == ret(Notary.Verify)[1]
 //@   ensures accepted-is-the-decoded-ring: err == nil ==> called(asn1.UnmarshalKeyRing) && ring == ret(asn1.UnmarshalKeyRing)[0]
+
+// ---- applying the in-memory transaction log (C08): pending updates are applied in order; when one of them fails, the
+// ones applied before it are rolled back, newest first, all the way to the first, and the failure is reported - so a
+// failed write cycle leaves the in-memory ring as the store has it.
+//@ func (r *KeyRing) applyPendingTX() (err error)
+//@   props C08
+//@   loop 0 invariant applied-so-far-succeeded: !called(keyRingTX.Rollback) && (called(keyRingTX.Apply) ==> ret(keyRingTX.Apply)[0] == nil)
+//@   loop 1 invariant going-down: -1 <= i && i < lastTX
+//@          step newest-first-one-by-one: i == prev(i) - 1 && itercalled(keyRingTX.Rollback)
+//@          exit down-to-the-first: i == -1
+//@   at call keyRingTX.Apply : assert arg[0] == r && !called(keyRingTX.Rollback)
+//@   at call keyRingTX.Rollback : assert recv == r.txLog[i] && arg[0] == r && called(keyRingTX.Apply) && ret(keyRingTX.Apply)[0] != nil
+//@   ensures failure-is-reported: called(keyRingTX.Rollback) ==> err != nil
+//@   ensures success-means-nothing-failed: err == nil ==> !called(keyRingTX.Rollback) && (called(keyRingTX.Apply) ==> ret(keyRingTX.Apply)[0] == nil)
+//@   ensures the-failure-is-the-apply-error: err != nil ==> called(keyRingTX.Apply) && err == ret(keyRingTX.Apply)[0]
